@@ -102,7 +102,7 @@ def plan_payloads(ctx, q):
         ("ids", dict(data=[X], ids=all_strs(HOSTILE, L), types=[], max_ops=2, max_appends=1, view_hist=True)),
         ("types", dict(data=[X], ids=[], types=all_strs(HOSTILE, L), max_ops=2, max_appends=1, view_hist=True)),
         ("families", dict(data=[X, INJECT, INJECT2, ["LF"], []], comments=[["x", "LF", "data", "COLON", "y"]], ids=ids2[:3], types=[X, ["data"]],
-                          retries=["ms1", "neg"], max_msgs=2 if q else 3, max_ops=2 if q else 3, max_appends=1)),
+                          retries=["ms1", "neg"], max_msgs=2 if q else 3, max_ops=2, max_appends=1)),
     ]
 
 
